@@ -98,6 +98,11 @@ def run_history(cf, steps, pc_id, M, from_decoded=False, lazy=False):
         snapshots = []
         props = property_for(cls)
         for i, stp in enumerate(steps):
+            data_first = (i + pc_id + M) % 3 == 1
+            if data_first:
+                # the data set (e.g. the identifier / failed-instance list) is attached BEFORE status and the other
+                # fields are filled in: the order of assignments is the application's business
+                msg.data_set = stp['data']
             for j, (kw, v) in enumerate(sorted(stp['fields'].items())):
                 # alternate between the two public routes: the message's own property and the command data set
                 if kw in props and (i + j + pc_id) % 2 == 0:
@@ -105,7 +110,8 @@ def run_history(cf, steps, pc_id, M, from_decoded=False, lazy=False):
                 else:
                     setattr(msg.command_set, kw, v)
                 current[kw] = v
-            msg.data_set = stp['data']
+            if not data_first:
+                msg.data_set = stp['data']
             if lazy:
                 assoc.send(msg, pc_id)
                 snapshots.append((dict(current), bool(stp['data'])))
